@@ -110,11 +110,7 @@ Definition ti_eqb (a b : target * world) : bool :=
 
 (* ------------------------------------------------------------------ check *)
 
-(* the claim object disappeared in this step although the provider still holds the instance *)
-Definition orphaned (pre post : world) : bool :=
-  is_some (w_claim pre) && negb (is_some (w_claim post)) && negb (inst_absent (w_inst post)).
-
-Fixpoint check_steps (wm wo : world) (steps : list stepobs) : list string :=
+Fixpoint check_steps (wf0 : bool) (wm wo : world) (steps : list stepobs) : list string :=
   match steps with
   | [] => []
   | s :: rest =>
@@ -130,14 +126,15 @@ Fixpoint check_steps (wm wo : world) (steps : list stepobs) : list string :=
       ++ (if forallb (instant_ok wo) (filter is_tnode (s_instants s)) then [] else ["oracle:node-finalizer"])
       ++ (if forallb (instant_ok wo) (filter (fun ti => negb (is_tnode ti)) (s_instants s)) then []
           else ["oracle:claim-finalizer"])
-      ++ (if orphaned wo wo' then ["oracle:orphan"] else [])
-      ++ check_steps wm' wo' rest
+      ++ (if wf0 && orphaned wo wo' then ["oracle:orphan"] else [])
+      ++ check_steps wf0 wm' wo' rest
   end.
 
 Definition dedup (l : list string) : list string := nodup string_dec l.
 
 Definition check_case (c : case) : list string :=
-  match c with Case w0 steps => dedup (check_steps w0 w0 steps) end.
+  (* no-orphan is a statement about histories that start from a world in which the finalizer precedes the launch *)
+  match c with Case w0 steps => dedup (check_steps (finalizer_before_launch_b w0) w0 w0 steps) end.
 
 Definition check_all (cs : list (Z * case)) : list (Z * string) :=
   flat_map (fun ic => map (fun t => (fst ic, t)) (check_case (snd ic))) cs.
